@@ -88,7 +88,7 @@ func reflectParser() *dict.Parser {
 // ---- the struct family
 
 type rfInner struct {
-	U32 uint32              `avp:"V-U32"`
+	U32 uint32               `avp:"V-U32"`
 	OS  datatype.OctetString `avp:"V-OS,omitempty"`
 }
 type rfInner2 struct {
@@ -135,18 +135,18 @@ type rf3 struct { // native Go scalars
 	F64  float64 `avp:"V-F64"`
 }
 type rf4 struct {
-	N    int       `avp:"V-U32"`
-	E    int       `avp:"V-ENUM"`
-	Raw  []byte    `avp:"V-OS"`
-	IP   net.IP    `avp:"V-ADDR"`
-	T    time.Time `avp:"V-TIME"`
+	N   int       `avp:"V-U32"`
+	E   int       `avp:"V-ENUM"`
+	Raw []byte    `avp:"V-OS"`
+	IP  net.IP    `avp:"V-ADDR"`
+	T   time.Time `avp:"V-TIME"`
 }
 type rf5 struct { // pointers
-	OS  *string              `avp:"V-OS"`
-	U32 *uint32              `avp:"V-U32"`
+	OS  *string                    `avp:"V-OS"`
+	U32 *uint32                    `avp:"V-U32"`
 	ID  *datatype.DiameterIdentity `avp:"V-ID"`
-	T   *datatype.Time       `avp:"V-TIME"`
-	Ad  *datatype.Address    `avp:"V-ADDR"`
+	T   *datatype.Time             `avp:"V-TIME"`
+	Ad  *datatype.Address          `avp:"V-ADDR"`
 }
 type rf6 struct { // slices
 	OS   []string             `avp:"V-OS"`
@@ -206,10 +206,10 @@ type rf14 struct { // grouped AVP carried as raw bytes
 	N   uint32           `avp:"V-U32"`
 }
 type rf15 struct { // conversions Go allows: []byte for a string type, string for an address
-	B  []byte `avp:"V-UTF8"`
-	S  string `avp:"V-IP4"`
-	I  int64  `avp:"V-U32"`
-	U  uint32 `avp:"V-I64"`
+	B []byte `avp:"V-UTF8"`
+	S string `avp:"V-IP4"`
+	I int64  `avp:"V-U32"`
+	U uint32 `avp:"V-I64"`
 }
 type rf16 struct { // mismatches
 	S string    `avp:"V-OS"`
@@ -242,15 +242,15 @@ type rfAllOmit struct { // a grouped struct all of whose members may be omitted
 	B string `avp:"V-OS,omitempty"`
 }
 type rf23 struct {
-	T  rfAllOmit    `avp:"V-GRP"`
-	P  *rfAllOmit   `avp:"V-GRP2"`
-	S  []rfAllOmit  `avp:"V-GNOV"`
-	ID string       `avp:"V-ID"`
+	T  rfAllOmit   `avp:"V-GRP"`
+	P  *rfAllOmit  `avp:"V-GRP2"`
+	S  []rfAllOmit `avp:"V-GNOV"`
+	ID string      `avp:"V-ID"`
 }
 type rf24 struct {
 	PS []*rfAllOmit `avp:"V-GRP"`
 	In *struct {
-		E  *rfAllOmit `avp:"V-GRP2"`
+		E  *rfAllOmit  `avp:"V-GRP2"`
 		ES []rfAllOmit `avp:"V-GNOV"`
 	} `avp:"V-GRP2"`
 }
